@@ -290,6 +290,7 @@ def _run_history(sc, want_idempotence=True, faults=None, audits=True):
             u = rnd['update']
             scope = u.get('path', '')
             if u.get('path2') and (u.get('api') != 'cli' or not scope or u.get('create') or
+                                   psw(u['path2'], scope) or psw(scope, u['path2']) or      # (nested: the two updates undo each other under an IGNORE)
                                    not os.path.isdir(os.path.join(w.root, u['path2'])) or
                                    not cli_discovers_root_top(w.root, u['path2'])):
                 u = dict(u)
@@ -535,7 +536,9 @@ def _run_history(sc, want_idempotence=True, faults=None, audits=True):
                     if want != (comp is not None):
                         violations.append(viol('wm.iff', '%s: %s has uncompressed size %d, watermark %d, stored %s' % (
                             what, mp, unc, wm, 'compressed' if comp else 'plain'), sig='want=%s' % want))
-                    if want and comp is not None:
+                    if want and comp is not None and len(scopes) == 1:
+                        # (two directories in one invocation are two saves: a Manifest may legitimately be uncompressed
+                        # by the first and compressed again, in the default format, by the second)
                         prev = sorted(b for b in valid_before if logical_name(b) == logical_name(mp))
                         prevc = G.comp_of(prev[0]) if prev else None
                         if prevc is not None and comp != prevc:
